@@ -163,6 +163,40 @@ def body_is_simple(ctx, tr):
     return True, ''
 
 
+def protected_effects(ctx, tr, depth=0):
+    """What the try body does that a swallowing handler would hide: a stable, name-free description used to identify a finding
+    (loop / yield / call of a user-supplied callable - directly or one repository call deep - / queue get / queue put / io)."""
+    kinds = set()
+    params = _param_names(ctx, tr)
+    for st in tr.body:
+        for n in ast.walk(st):
+            if isinstance(n, (ast.For, ast.While)):
+                kinds.add('loop')
+            elif isinstance(n, (ast.Yield, ast.YieldFrom)):
+                kinds.add('yield')
+            elif isinstance(n, ast.Call):
+                f = n.func
+                if isinstance(f, ast.Name) and f.id in params:
+                    kinds.add('user-callable')
+                elif isinstance(f, ast.Attribute) and f.attr in ('get', 'put') and isinstance(f.value, ast.Name):
+                    kinds.add('queue-' + f.attr)
+                elif isinstance(f, ast.Attribute) and f.attr in IO_ATTRS:
+                    kinds.add('io')
+                elif depth == 0:
+                    try:
+                        tg = ctx.res.resolve_call(n)
+                    except Exception:
+                        tg = []
+                    for t in tg:
+                        if isinstance(t, FuncInfo) and not isinstance(t.node, ast.Lambda):
+                            # a helper called with one of our user callables as argument applies it
+                            if any(isinstance(a, ast.Name) and a.id in params for a in n.args) and \
+                                    any(isinstance(c, ast.Call) and isinstance(c.func, ast.Name) and c.func.id in t.all_params
+                                        for c in ast.walk(t.node)):
+                                kinds.add('user-callable')
+    return sorted(kinds)
+
+
 def run_path_handlers(ctx):
     """All except handlers of the package with their try statement."""
     out = []
@@ -181,6 +215,7 @@ def r14_err_discipline(ctx, rule='R14', include=lambda m: True, floor=26):
                    'step failure (no yield, loop, user callable, file/queue operation), or (iii) is one of the frozen, '
                    'individually justified handlers')
     n = 0
+    pending = []
     for m, tr, h in run_path_handlers(ctx):
         if not include(m):
             continue
@@ -215,9 +250,18 @@ def r14_err_discipline(ctx, rule='R14', include=lambda m: True, floor=26):
             reason = 'narrow type but the try body %s' % why
         else:
             reason = 'broad exception type %s' % ', '.join(types)
-        run.fail(rule, w, fqn, construct,
-                 'handler swallows the exception (%s): a failing step can end in a run that returns normally [handler body: %s]'
-                 % (reason, body_txt))
+        pending.append((m, tr, h, w, fqn, types, reason, body_txt, tuple(protected_effects(ctx, tr))))
+    # a swallowing handler is identified by its module, the caught type and what its try body protects - not by the name of the
+    # function it sits in (a refactoring may move it into a helper) nor by the text of its body; the number of handlers of the
+    # module that share the description is part of the key, so that an additional one is reported
+    from collections import Counter
+    cnt = Counter((m.name, tuple(types), eff) for m, tr, h, w, fqn, types, reason, body_txt, eff in pending)
+    for m, tr, h, w, fqn, types, reason, body_txt, eff in pending:
+        construct = 'except %s swallowed around {%s} (%d such handler(s) in the module)' % (
+            ', '.join(types), ', '.join(eff) or 'plain statements', cnt[(m.name, tuple(types), eff)])
+        run.fail(rule, w, m.name, construct,
+                 'handler swallows the exception (%s): a failing step can end in a run that returns normally [in %s; handler body: %s]'
+                 % (reason, fqn, body_txt))
     run.floor(rule, n, floor, 'except handlers')
     return n
 
